@@ -200,14 +200,14 @@ def jobs_for(t):
             add(g, one_domain(g), "all")
         for g in family(3, labellings=("fwd",), n_min=3):
             add(g, one_domain(g, stride=3, offset=seed()), "diag")
-            add(g, two_domains(g, stride=97, offset=seed()), "diag")
+            add(g, two_domains(g, stride=13, offset=seed()), "diag")
         for name in ("frontdoor", "bow", "iv", "napkin", "fig3_tikka"):
             g = CURATED[name]
             add(g, one_domain(g, stride=(1 if len(g.nodes) <= 3 else 29), offset=seed()), "diag")
     else:
         for g in family(3):
             add(g, one_domain(g), "all")
-            add(g, two_domains(g, stride=11, offset=seed()), "diag")
+            add(g, two_domains(g, stride=3, offset=seed()), "diag")
         for i, g in enumerate(family(4, labellings=("fwd",), n_min=4)):
             if i % 8 == seed() % 8:
                 add(g, one_domain(g, stride=23, offset=seed()), "diag")
@@ -227,7 +227,7 @@ def run() -> int:
         "returned Expression -> z3 polynomial terms over a multi-domain family of SCMs (vf/sem/l2.py with per-domain tables)",
     ]
     rep.bounds = {
-        "graphs": "quick: ADMGs <=2 nodes (all one-domain inputs), 3 nodes (1/3 of the one-domain inputs, 1/97 of the two-domain inputs), front-door / bow / IV / napkin / fig.3 curated; thorough: all ADMGs on 3 nodes under two labellings (all one-domain inputs, 1/11 two-domain), 1/8 of the 4-node classes, curated 4-node graphs",
+        "graphs": "quick: ADMGs <=2 nodes (all one-domain inputs), 3 nodes (1/3 of the one-domain inputs, 1/13 of the two-domain inputs), front-door / bow / IV / napkin / fig.3 curated; thorough: all ADMGs on 3 nodes under two labellings (all one-domain inputs, 1/3 two-domain), 1/8 of the 4-node classes, curated 4-node graphs",
         "domains": "1-2 source domains, experiment set Z_i of <=2 (1) variables possibly empty, non-empty surrogate-outcome set W_i disjoint from Z_i",
         "models": "families of positive binary SCMs with one binary latent per bidirected edge: every table and every latent prior is shared with the target except the tables of the nodes that the library's own selection diagram (get_nodes_to_transport) marks for that domain, which are independent parameters",
         "rsi": "get_nodes_to_transport over every ADMG on N nodes and all non-empty disjoint node sets Z, W: N = 4 (quick), 4-5 (thorough)",
